@@ -1,0 +1,11 @@
+//go:build verif
+// +build verif
+
+package raftpb
+
+//@ property C05 C03 C02 C01
+
+//@ func (m *HardState) Reset()
+//@   inline
+//@ func (m *Entry) Reset()
+//@   inline
